@@ -31,4 +31,14 @@ def main():
                 if flag=='refuted':
                     m = smt.get_model(ob)
                     print("      model:", str(m)[:600])
+def lemmas():
+    import z3
+    from pyvc.spec import LEMMAS
+    for name, lem in LEMMAS.items():
+        for label, assumptions, goal in lem.fn():
+            sol = z3.Solver(); sol.set("timeout", 20000)
+            for a in assumptions: sol.add(a)
+            sol.add(z3.Not(goal)); t0=time.time(); r = sol.check()
+            print(f"   lemma {name}/{label}: {'discharged' if r==z3.unsat else r} {time.time()-t0:.2f}s")
 main()
+lemmas()
